@@ -183,7 +183,11 @@ impl Axecutor {
             let fd_ptr = ax.reg_read_64(RDI)?;
 
             ax.mem_write_64(fd_ptr, read_end)?;
-            ax.mem_write_64(fd_ptr + 8, write_end)?;
+            // the second slot may lie beyond the end of the address space
+            let second = fd_ptr
+                .checked_add(8)
+                .ok_or_else(|| AxError::from("pipe: descriptor array does not fit into the address space"))?;
+            ax.mem_write_64(second, write_end)?;
 
             ax.reg_write_64(RAX, 0)?;
 
